@@ -22,7 +22,7 @@ from common import (GEN, BrokenTie, Result, compile_gen, coq_eval_lists, ensure_
 PROP = 'C01'
 DIALECTS = ['mindsdb', 'mysql', 'sqlite']
 ID_POOL = ['select', 'from', 'order', 'group', 'a b', 'a.b', 'AbC', '_x', '1a', 'ünï', 'a-b', 'x y z', 'table', 'model', 'key', 'value', 'end',
-           'case', 'left', 'first', 'last', 'null', 'true', 'Int', 'a$b', 'a@b', 'a#b', '日本', 'latest', 'database', 'view', 'status', 'show']
+           'case', 'left', 'first', 'last', 'null', 'true', 'Int', 'a$b', 'a@b', 'a#b', '日本', 'latest', 'database', 'view', 'status', 'show', 'from$', 'table$', 'index$', 'status$', 'v$session', '$x', 'select$1', 'user$']
 STR_POOL = ['a b', '%x_', 'ü', 'select', '--x', '/*', ' lead', 'UPPER', 'a,b', '(x)', '1', 'null', 'a.b', 'x;y', 'a=b', '{k:1}', 'a`b', 'tab\there']
 
 
@@ -89,7 +89,7 @@ def run(tier, seed, replay=None):
         return R.finish()
     # ---------------- identifiers: correspondence with Model/IdentPrint
     reserved = sorted(get_reserved_words())
-    alphabet = ['a', 'B', '_', '1', ' ', '.', '-', 'é', '$', 'select', 'order', 'x']
+    alphabet = ['a', 'B', '_', '1', ' ', '.', '-', 'é', '$', 'select', 'order', 'x', 'from', 'table', '$']
     idents = []
     for _ in range(300 if tier == 'quick' else 3000):
         parts = []
@@ -228,7 +228,8 @@ def run(tier, seed, replay=None):
         if s1 is None:
             return out
         # names that were back-quoted in the input and need quoting, but are printed bare: put the quotes back and try again
-        names = [n for n in set(re.findall(r'`([^`]+)`', s)) if not plain_re.fullmatch(n) or n.upper() in res_set]
+        s_nostr = re.sub(r"'(?:[^'\\]|\\.|'')*'", "''", s)        # back quotes inside string literals are not names
+        names = [n for n in set(re.findall(r'`([^`]+)`', s_nostr)) if not plain_re.fullmatch(n) or n.upper() in res_set]
         fixed = s1
         for n in sorted(names, key=len, reverse=True):
             fixed = re.sub(r'(?<![`\w.])' + re.escape(n) + r'(?![`\w])', '`' + n.replace('\\', '\\\\') + '`', fixed, flags=re.I)
